@@ -103,8 +103,9 @@ def run_history(sc: Path, spec: dict, hashseed: int, timeout: int) -> dict:
     return res
 
 
-def iso_spec(m: str, tests: dict) -> dict:
-    return {"hid": f"iso:{m}", "steps": [["import", m]], "observe": [m], "tests": {m: tests[m]} if m in tests else {}}
+def iso_spec(m: str, tests: dict, zero: bool = False) -> dict:
+    return {"hid": f"iso:{m}", "steps": [["import", m]], "observe": [m], "tests": {m: tests[m]} if m in tests else {},
+            "zero_probe": zero}
 
 
 SHIFT = {"SYM": 760, "FUN": 10, "QTY": 75, "SYS": 8}
@@ -399,6 +400,16 @@ def compare(ref_fp: dict, fp: dict) -> list:
     cb = {(c[0], c[1], c[2]): c[3] for c in fp.get("calls", [])}
     for k in sorted(set(ca) | set(cb)):
         name = f"call:{k[2]}@{k[0]}#{k[1]}"
+        if k[0] == "zeroB":
+            # the same call with a zero-valued argument, other code having created quantities between two of the
+            # arguments (a QTY digit boundary between them): value and DIMENSION must be those of the plain call
+            plain = ca.get(("zero", 0, k[2]))
+            if k in cb and plain is not None:
+                v = c03_value.values(plain, cb[k])
+                out.append((v, name, f"{k[2].split(':')[0]}(...) with a zero-valued `{k[2].split(':')[1]}`: "
+                                     f"{plain} when the arguments are created one after the other ; {cb[k]} when a "
+                                     f"digit boundary of the QTY counter falls between two of them" if v != "same" else ""))
+            continue
         if k not in ca or k not in cb:
             out.append(("undecided", name, "call recorded in one history only"))
             continue
@@ -570,7 +581,7 @@ def main() -> int:
         # --- the reference history of every module, and the whole-catalogue orders (started first: long)
         iso = [m for m in modules if not only or any(o in m for o in only)]
         cats = [] if only and "cat" not in only else catalogue_orders(modules, tier, run.seed)
-        specs = [(cat_spec(h, o, offs, tests), hs) for h, o, offs, hs in cats] + [(iso_spec(m, tests), 0) for m in iso] + \
+        specs = [(cat_spec(h, o, offs, tests), hs) for h, o, offs, hs in cats] + [(iso_spec(m, tests, True), 0) for m in iso] + \
             [(shifted_spec(m, tests), 5) for m in iso] + [(x, 0) for x in wrapped_specs(iso, tests)] + \
             ([] if only and "threaded" not in only else [(x, 0) for x in threaded_specs(modules, tests)])
         collect(run, sc, specs, "isolated + isolated with shifted counters + threaded + catalogue orders", 3000, results)
@@ -652,7 +663,7 @@ def replay_file(path: str) -> int:
             spec["observe"] = [m]
             spec["fp_workers"] = 1
         r = run_history(sc, spec, c.get("hashseed", 0), 3000)
-        ref = run_history(sc, iso_spec(m, tests), 0, 900)
+        ref = run_history(sc, iso_spec(m, tests, True), 0, 900)
     bad = []
     for imp in r.get("imports", []):
         if imp["m"] == m and not imp["ok"]:
